@@ -157,8 +157,6 @@ RAny(why) == [st |-> "any", cls |-> why, ty |-> "", v |-> VNone, chk |-> FALSE]
 \* compiler rejects (mismatched types, operator not defined, non-convertible) is "invalid"
 
 (* ------------------------------------------------------------------ representability (Go spec) *)
-\* a float result of exact value d given the type t: rounded, or rejected on overflow
-ReprFloat(d, t) == RoundTo(d, t)
 \* the constant value v (exact) represented in the typed type t
 Repr(v, t) ==
   LET c == TClass(t) IN
